@@ -163,3 +163,96 @@ fn c18(tier: Tier) -> Vec<Space> {
     }
     v
 }
+
+/// Letter of the TLA+ model -> the line fed to the real parser and the payload token it carries.
+fn model_letter(n: u32, k: u32, i: u32) -> (Vec<u8>, Vec<u8>) {
+    use crate::spec::line::{sentence, Mk};
+    let id: Vec<u8> = if i == 0 { vec![] } else { i.to_string().into_bytes() };
+    if n == 0 {
+        // a rejected line: well-formed continuation with a wrong checksum
+        let m = Mk::new(2, 2, &id, b"bad", 0);
+        let wrong = format!("*{:02X}", m.xor() ^ 0x33);
+        return (m.render_with(wrong.as_bytes()), vec![]);
+    }
+    let token = format!("{}{}{}", n, k, (b'a' + (i % 20) as u8) as char).into_bytes();
+    (sentence(n, k, &id, &token, 0), token)
+}
+
+/// Trace conformance: every behaviour of the model (as dumped by TLC) is executed on the real
+/// `AisParser`; each step's outcome class and delivered payload must coincide.
+pub fn conform(path: &str) -> i32 {
+    use crate::canon::Out;
+    let text = match std::fs::read_to_string(path) {
+        Ok(t) => t,
+        Err(e) => {
+            eprintln!("cannot read {}: {}", path, e);
+            return 2;
+        }
+    };
+    let (mut hists, mut steps, mut mism, mut deliveries) = (0u64, 0u64, 0u64, 0u64);
+    let mut first: Option<String> = None;
+    for line in text.lines() {
+        if line.trim().is_empty() {
+            continue;
+        }
+        hists += 1;
+        let mut p = crate::subj::Parser::new();
+        let mut shown: Vec<String> = Vec::new();
+        for st in line.split_whitespace() {
+            let parts: Vec<&str> = st.split('/').collect();
+            let nums: Vec<u32> = parts[0].split('.').map(|x| x.parse().unwrap_or(0)).collect();
+            let (sent, _tok) = model_letter(nums[0], nums[1], nums[2]);
+            let want_payload: Vec<u8> = if parts[2] == "-" {
+                vec![]
+            } else {
+                parts[2]
+                    .split('+')
+                    .flat_map(|f| {
+                        let q: Vec<u32> = f.split('.').map(|x| x.parse().unwrap_or(0)).collect();
+                        model_letter(q[0], q[1], q[2]).1
+                    })
+                    .collect()
+            };
+            let out = p.parse(&sent, false);
+            steps += 1;
+            let got = match &out {
+                Out::Complete(_) => "complete",
+                Out::Incomplete(_) => "incomplete",
+                Out::Err(_) => "reject",
+                Out::Panic(_) => "panic",
+            };
+            shown.push(format!("{} -> {}", crate::json::esc_bytes(&sent), out.show()));
+            let mut ok = got == parts[1];
+            if let Out::Complete(s) = &out {
+                deliveries += 1;
+                if s.data != want_payload {
+                    ok = false;
+                }
+            }
+            if !ok {
+                mism += 1;
+                if first.is_none() {
+                    first = Some(format!("model step `{}` disagrees with the implementation; history: {}", st, shown.join(" | ")));
+                }
+                break;
+            }
+        }
+    }
+    println!(
+        "{{\"behaviours\":{},\"steps\":{},\"deliveries\":{},\"mismatches\":{},\"build\":\"{}\",\"first_mismatch\":{}}}",
+        hists,
+        steps,
+        deliveries,
+        mism,
+        crate::subj::BUILD,
+        match &first {
+            Some(f) => crate::json::J::s(f).render(),
+            None => "null".to_string(),
+        }
+    );
+    if mism > 0 {
+        1
+    } else {
+        0
+    }
+}
